@@ -679,7 +679,7 @@ def enumerate_formspace(chk=None, facets=False, exprs=False, complex_terms=False
 
 
 _NDOF = {"P1": 1, "P2": 3, "P3": 6, "DG0": 0.4, "DG1": 1, "vP1": 2.5, "vP2": 7, "symP1": 3, "TH": 8, "RT1": 1, "N1": 1.5,
-         "BDM1": 2, "RTxDG0": 1.5, "bubble": 1.5, "real": 0.3, "quad": 1, "RTCF1": 1.5, "RTCE1": 1.5}
+         "BDM1": 2, "RTxDG0": 1.5, "bubble": 1.5, "real": 0.3, "quad": 1, "RTCF1": 1.5, "RTCE1": 1.5, "iso": 3}
 _CELLW = {"interval": 0.3, "triangle": 1, "quadrilateral": 2, "tetrahedron": 3, "hexahedron": 10}
 
 
